@@ -1,7 +1,8 @@
 """C01 - A floating IP is never held by two live pods."""
 import plugincheck, ipamcheck
 
-THEOREMS = ["one_owner", "live_pods_disjoint"]
+THEOREMS = ["one_owner", "live_pods_disjoint", "resync_passes_by_keys_without_a_pod", "underscore_pool_key_is_skipped",
+            "resync_passes_by_nonvacuous"]
 REFUTED = ["live_pods_disjoint_refuted_late_event_old"]
 KNOWN_FINDINGS = [
     {"id": "F1", "status": "fixed", "commit": "53acf3f", "tag": "c01-late-event",
